@@ -153,8 +153,8 @@ impl World<'_> {
     fn panic_seen(&mut self, j: usize, op: &str, msg: &str) {
         if msg.contains("consensus safety violation") {
             self.safety_panic = true;
-            // is consensus safety really violated on the global history? If not, the assertion itself is wrong (known finding
-            // D27: the finality tracker asserts that the notarized block of a slot is the one on the finalized chain)
+            // is consensus safety really violated on the global history? If not, the assertion itself is wrong (as in defect D27,
+            // repaired: the finality tracker asserted that the notarized block of a slot is the one on the finalized chain)
             if self.history_safe() {
                 let first = msg.lines().next().unwrap_or("").to_string();
                 self.rec.oracle(false, "safety-assert-fired-history-safe", || format!("{op}: node {j} hit a 'consensus safety violation' assertion ({first}) although the global vote history satisfies agreement (one notarized block per slot, finalized blocks on one chain, no finalized slot skip-certified){}", self.ctx));
@@ -480,6 +480,15 @@ fn directed(keys: &Keys, mut rec: Recorder, tag: &str, blocks: &[(usize, u64, u6
             D::To(j, s) => w.votor_event(j, format!("to {j} {s}"), &mut rng, 0, |v, rt| rt.block_on(v.verif_timeout(Slot::new(s), false))),
         }
     }
+    // no node of a directed case may panic (case 2 reproduced defect D27 before its repair)
+    for j in 0..n {
+        let dead = w.nodes[j].as_ref().is_some_and(|nd| nd.dead);
+        w.rec.oracle(!dead, "node-panic", || format!("directed case {tag}: node {j} is dead at the end of the script"));
+    }
+    if tag == "notarized-sibling-of-finalized-chain" {
+        let fin = w.nodes[0].as_ref().expect("node").pool.finalized_slot().inner();
+        w.rec.oracle(fin == 4, "directed-not-finalized", || format!("directed case {tag}: node 0 reports finalized slot {fin}, expected 4 (fast-finalization of (4,40) through the chain (3,32) -> (2,22) next to the notarized (2,21))"));
+    }
     let class = w.class;
     w.rec.end_case(class, true);
     w.rec
@@ -494,7 +503,8 @@ fn main() {
     let timed = args.extra.iter().any(|a| a == "--timed");
     let cases = if args.thorough { 400 } else { 24 };
     let mut rec = Recorder::new();
-    // ---- directed cases (see `directed`); only for C01 (`--directed`): the second one ends in known finding D27
+    // ---- directed cases (see `directed`); only for C01 (`--directed`): the second one used to end in the panic of defect D27
+    //      (repaired, `fix:` 7ac7ffa) and now demands that no node panics and that X's pool reports f finalized
     let run_directed = args.extra.iter().any(|a| a == "--directed");
     if run_directed {
     // (1) ParentReady derived from a finalization: A learns the fast-finalization of c2 = (4,40) whose registered ancestors are
